@@ -12,6 +12,7 @@ import (
 	"fmt"
 	"os"
 	"path/filepath"
+	"slices"
 	"sort"
 	"time"
 
@@ -64,13 +65,48 @@ func (r *rcm) GetOrder(rc, h uint64, o string, id uint64) (*lib.SellOrder, lib.E
 	return nil, lib.ErrOrderNotFound()
 }
 func (r *rcm) GetDexBatch(rc, h, id uint64, wp bool) (*lib.DexBatch, lib.ErrorI) { return nil, nil }
+
+// IsValidDoubleSigner / GetMinimumEvidenceHeight mirror the root chain's RPC handlers (cmd/rpc/query.go, which cannot be
+// linked here: its web assets are not in the tree): the last certificate's not yet indexed double signers count as
+// already used, then the indexer decides; the evidence window is the state machine's own computation at that height
 func (r *rcm) IsValidDoubleSigner(rc, h uint64, a string) (*bool, lib.ErrorI) {
-	t := true
-	return &t, nil
+	st := r.c.FSM.Store().(lib.StoreI)
+	addr, e := lib.StringToBytes(a)
+	if e != nil {
+		return nil, e
+	}
+	if h == 0 {
+		h = st.Version() - 1
+	}
+	no := false
+	if qc, err := st.GetQCByHeight(st.Version() - 1); err != nil {
+		return nil, err
+	} else if qc != nil && qc.Results != nil && qc.Results.SlashRecipients != nil {
+		for _, ds := range qc.Results.SlashRecipients.DoubleSigners {
+			pk, e2 := crypto.NewPublicKeyFromBytes(ds.Id)
+			if e2 != nil {
+				continue
+			}
+			if bytes.Equal(pk.Address().Bytes(), addr) && slices.Contains(ds.Heights, h) {
+				return &no, nil
+			}
+		}
+	}
+	ok, err := st.IsValidDoubleSigner(addr, h)
+	return &ok, err
 }
 func (r *rcm) GetMinimumEvidenceHeight(rc, h uint64) (*uint64, lib.ErrorI) {
-	z := uint64(0)
-	return &z, nil
+	sm := r.c.FSM
+	if h != 0 && h < sm.Height() {
+		tm, err := sm.TimeMachine(h)
+		if err != nil {
+			return nil, err
+		}
+		defer tm.Discard()
+		sm = tm
+	}
+	z, err := sm.LoadMinimumEvidenceHeight()
+	return &z, err
 }
 func (r *rcm) GetCheckpoint(rc, h, id uint64) (lib.HexBytes, lib.ErrorI) { return nil, nil }
 func (r *rcm) Transaction(rc uint64, tx lib.TransactionI) (*string, lib.ErrorI) {
